@@ -151,17 +151,52 @@ def guards(node, stop=None):
     return out
 
 
+def _mk(node, like):
+    ast.copy_location(node, like)
+    node._parent = getattr(like, "_parent", None)
+    return node
+
+
+def _leave_condition(block):
+    """condition (an expression; True for "always") under which executing the statement list leaves the enclosing list
+    (return / continue / break / raise); None if it never does or the shape is not `[simple stmts..] <if-chain>`"""
+    if not block:
+        return None
+    if always_leaves(block):
+        return True
+    last = block[-1]
+    if any(isinstance(n, (ast.Return, ast.Continue, ast.Break, ast.Raise)) for s in block[:-1] for n in ast.walk(s)):
+        return None
+    if not isinstance(last, ast.If):
+        return None
+    lb, le = _leave_condition(last.body), _leave_condition(last.orelse)
+    parts = []
+    if lb is not None:
+        parts.append(last.test if lb is True else _mk(ast.BoolOp(op=ast.And(), values=[last.test, lb]), last.test))
+    if le is not None:
+        if lb is True:
+            parts.append(True if le is True else le)      # test or (not test and le)  ==  test or le
+        else:
+            nt = _mk(ast.UnaryOp(op=ast.Not(), operand=last.test), last.test)
+            parts.append(nt if le is True else _mk(ast.BoolOp(op=ast.And(), values=[nt, le]), last.test))
+    parts = [p for p in parts if p is not True] if True not in parts else [True]
+    if not parts:
+        return None
+    if parts == [True]:
+        return True
+    return parts[0] if len(parts) == 1 else _mk(ast.BoolOp(op=ast.Or(), values=parts), last.test)
+
+
 def _sibling_guards(block, stmt):
+    """the statement is reached only if none of the earlier sibling ifs left the block: (leave condition, False) each"""
     res = []
     for s in block:
         if s is stmt:
             break
         if isinstance(s, ast.If):
-            if always_leaves(s.body) and not always_leaves(s.orelse):
-                res.append((s.test, False))
-            elif s.orelse and always_leaves(s.orelse) and \
-                    not always_leaves(s.body):
-                res.append((s.test, True))
+            lc = _leave_condition([s])
+            if lc is not None and lc is not True:
+                res.append((lc, False))
     return res
 
 
